@@ -51,6 +51,26 @@ def make_cases(rng, tier, n):
             ops += [("commit", rng.choice("lc"), []), ("rmobj", "r" + dirsrc[i].hex()),
                     ("write", dirsrc[i] + b"/late%d.txt" % c_i, "g:%d:6" % rng.randrange(1000)), ("run", False, [])]
             hist.append("dir-input-manifest-lost")
+        if c_i % 10 == 7 and len(names) >= 2:
+            # a run that FAILS in its last stage after earlier stages completed; the cause is repaired, a source of a completed stage
+            # changes as well, and the run is repeated: nothing of the failed run may count
+            last = len(names) - 1
+            orig_cmd = c["stages"][last][1]["cmd"]
+            first_src = sorted(srcs.items())[0] if srcs else None
+            ops += [("setcmd", names[last], b"vfail S%d 3" % last), ("run", False, [])]
+            if first_src:
+                ops.append(("write", first_src[1], "g:%d:%d" % (rng.randrange(300000, 400000), rng.choice([2, 9]))))
+            ops += [("setcmd", names[last], orig_cmd), ("run", False, []), ("commit", rng.choice("lc"), []), ("run", False, [])]
+            hist.append("failed-run-then-edit")
+        if c_i % 10 == 1:
+            # an object of the cache is damaged (a transfer that was cut short) while the workspace holds the right bytes as copies;
+            # the stage is regenerated and committed again: the object under that checksum holds the right bytes afterwards
+            i = sorted(range(ns))[(c_i // 10) % ns]
+            outp, fl = c["stages"][i][1]["out"][0]
+            tgt = outp + (b"/f" if "d" in fl else b"")
+            ops += [("commit", "c", []), ("corrupt", "p" + tgt.hex(), "g:%d:4" % rng.randrange(1000)), ("run", False, []), ("commit", rng.choice("lc"), []),
+                    ("clone", []), ("checkout", rng.choice("lc"), False, []), ("run", False, [])]
+            hist.append("damaged-object-recommitted")
         for _ in range(nev):
             ev = rng.choice(["edit_src", "edit_src", "edit_def", "damage", "delete", "run_all", "run_all", "run_t", "run_s", "commit_after_run",
                              "run_commit_run", "partial", "edit_ws", "same_len"])
